@@ -111,14 +111,16 @@ def execute(cid, config, decls, run):
         except errors.CutplaceError:
             pass
     elif kind == "abandon":
-        generator = cutplace.rows(cid, source, on_error="yield")
+        generator = None
         try:
+            generator = cutplace.rows(cid, source, on_error="yield")
             for _ in range(run["after"]):
                 next(generator)
         except (StopIteration, errors.CutplaceError):
             pass
         try:
-            generator.close()
+            if generator is not None:
+                generator.close()
         except errors.CutplaceError:
             pass
     else:
